@@ -28,12 +28,15 @@ SAVE_EXPRS = [
     "Gt(x, 0)*3 + 1", "ContinuousConditional(Gt(x, a), 1, 2, 0.5)", "Mod(x, 2)", "floor(x/2)", "abs(x - y)",
     "sqrt(x)*sqrt(y)", "log(x)/log(2)", "pi*x", "cos(2*pi*x)", "-x**2", "(-x)**2", "x - (y - (a - b))", "x/(y/(a/b))",
     "Conditional(Ge(t, 1), Conditional(Le(t, 2), -a, 0), 0)", "Conditional(Eq(x, 0), 1, y/x)", "1/4", "2/3*y", "-(1/3)",
+    "Conditional(Eq(x, 0), 1, Conditional(Lt(x, 5), exp(x), 7))", "Conditional(Eq(y, 1), 2*a, Conditional(Eq(y, 2), 2*a, a))",
+    "Conditional(Lt(x, 0), 0, Conditional(Lt(x, 1), x, Conditional(Lt(x, 2), 1, 2 - x)))", "Conditional(Gt(x, 2), a, Conditional(Gt(x, 1), a, b))",
+    "Conditional(Le(x, 0), -x, Conditional(Le(x, 0), 5, x*x))", "Conditional(Eq(x, 1), 1, x/x)",
     "6.02214076e23*x", "8.8541878128e-12 + y", "1.380649e-23*x/1.602176634e-19", "0.000123456789*x", "123456789012345678.0 + x",
     "x/96485.33212", "2.99792458e8*y", "1.23456789e-5*x + 9.87654321e16*y", "x*1.0000000001e20",
     "exp(-(x + 80)/6.8)", "0.057*exp(-(x + 80)/6.8)", "asin(x/2) + acos(y/4) + atan(z)", "tan(x)",
 ]
 DECL = ('parameters("A", a=ScalarParam(0.5, unit="mV", description="par a"), big=1e25, small=1e-25, q=exp(1), r=1/4, neg=-0.5, avo=6.02214076e23, eps0=8.8541878128e-12)\n'
-        'parameters("B", b=2.0)\nstates("A", x=ScalarParam(1.0, unit="mM", description="state x"))\nstates("B", y=2.0, z=1e-3)\n'
+        'parameters("B", b=ScalarParam(2.0, unit="per_ms"), cap=ScalarParam(1.0, unit="microF_per_cm2", description="CellML style unit"))\nstates("A", x=ScalarParam(1.0, unit="mM", description="state x"))\nstates("B", y=ScalarParam(2.0, unit="microA_per_microF"), z=1e-3)\n'
         'expressions("A")\nia = a*x + y*q # mV\ndx_dt = -ia*r + big*small + neg\n'
         'expressions("B")\nib = b*y - ia # nA\ndy_dt = ib/b\ndz_dt = -z\n')
 
